@@ -381,17 +381,22 @@ class AvpAddress(Avp):
         If the value to be set cannot be parsed as a valid IPv4 or an IPv6
         address, the address family is automatically set to E.164.
         """
-        addr_type = struct.unpack(">H", self.payload[:2])[0]
+        try:
+            addr_type = struct.unpack(">H", self.payload[:2])[0]
 
-        if addr_type == 1:
-            return addr_type, socket.inet_ntop(socket.AF_INET, self.payload[2:])
-        elif addr_type == 2:
-            return addr_type, socket.inet_ntop(socket.AF_INET6, self.payload[2:])
-        elif addr_type == 8:
-            return addr_type, self.payload[2:].decode("utf-8")
-        else:
-            # Instead of trying to decode unknown formats, just return hex string
-            return addr_type, self.payload[2:].hex()
+            if addr_type == 1:
+                return addr_type, socket.inet_ntop(socket.AF_INET, self.payload[2:])
+            elif addr_type == 2:
+                return addr_type, socket.inet_ntop(socket.AF_INET6, self.payload[2:])
+            elif addr_type == 8:
+                return addr_type, self.payload[2:].decode("utf-8")
+            else:
+                # Instead of trying to decode unknown formats, just return hex string
+                return addr_type, self.payload[2:].hex()
+        except (struct.error, ValueError, OSError) as e:
+            raise AvpDecodeError(
+                f"{self.name} value {self.payload} is not a valid "
+                f"address: {e}") from None
 
     @value.setter
     def value(self, new_value: str):
